@@ -3,7 +3,7 @@
   `resolve_merge`), and what `dicts.ensure` / `dicts.remove` do to a patch as seen by `probe`.
   Nothing here is specific to the storages.
 -/
-import Kopf.Model.C16_Storage
+import Kopf.Model.C16_Names
 namespace Kopf.C16
 open Kopf Kopf.J
 
@@ -178,11 +178,6 @@ theorem lookup_mergeKvs (p : List (String × J)) (hp : wfKvs p = true) (t : List
       · rw [mergeKvs_cons_nonnull _ _ _ hv, ih h3, lookup_insert_ne e']
         simp [lookup, e]
 
-/-- the bindings of a merge target (`{}` for a non-object target) -/
-def kvsOf : J → List (String × J)
-  | obj kvs => kvs
-  | _ => []
-
 theorem mergePatch_obj (t : J) (pk : List (String × J)) :
     mergePatch t (obj pk) = obj (mergeKvs (kvsOf t) pk) := by
   cases t <;> simp [mergePatch, kvsOf]
@@ -208,22 +203,6 @@ theorem resolve_cons (j : J) (k : String) (ks : Path) :
 theorem resolve_nil (j : J) : resolve? j [] = some j := by cases j <;> simp [resolve?]
 
 /-! ## what a merge-patch does along one path -/
-
-inductive Probe where
-  | untouched            -- the patch says nothing about this path
-  | gone                 -- the path is deleted (or cut off by a null / a scalar above it)
-  | set (v : J)          -- the patch carries value `v` (non-null unless the path is empty) at this path
-
-def probe : J → Path → Probe
-  | p, [] => .set p
-  | p, k :: ks =>
-    match p with
-    | obj pk =>
-      match lookup k pk with
-      | none => .untouched
-      | some null => .gone
-      | some c => if ks.isEmpty then .set c else if c.isObj then probe c ks else .gone
-    | _ => .gone
 
 /-- the probe of a path whose value the patch sets to `v` (`null` = deletion) -/
 def Probe.ofValue : J → Probe
@@ -358,11 +337,6 @@ theorem probe_set_ne_null (q : Path) : ∀ (p v : J), q ≠ [] → probe p q = .
               exact ih _ _ (by simp) hpr
 
 /-! ## paths that part ways -/
-
-/-- the two paths differ at some common position (neither is a prefix of the other) -/
-def diverge : Path → Path → Bool
-  | a :: as, b :: bs => if a = b then diverge as bs else true
-  | _, _ => false
 
 theorem diverge_cons_same (a : String) (as bs : Path) : diverge (a :: as) (a :: bs) = diverge as bs := by
   simp [diverge]
